@@ -1,8 +1,8 @@
 SPECIFICATION Spec
 CONSTANTS
-  Base = {"send", "send1", "send2"}
-  MaxDecls = 5
-  MaxCtors = 0
+  Base = {"send", "new1", "Chan1"}
+  MaxDecls = 4
+  MaxCtors = 3
   Probing = FALSE
 INVARIANTS UniqueMethods
 CHECK_DEADLOCK FALSE
